@@ -56,6 +56,8 @@ func jobsFor(prop, tier string) []*Job {
 			}
 		}
 		if prop == "C13" {
+			add(&Job{Name: "O5-twin/k=2", Pkg: "ratelimit", Harness: "VerifC13Twin", Params: p("k", 2), TimeoutS: 120,
+				Bounds: "two-rate set (2/s burst 3, 10/min burst 10) built through NewTokenBucketSet; 2 requests with symbolic amounts 1..4 and gaps up to 3 s, then a probe: a twin that never saw the rejected requests decides the probe identically"})
 			add(&Job{Name: "O1O2O4-bucket/tpt=symbolic", Pkg: "ratelimit", Harness: "VerifC13Bucket", Params: p("tpt", 0), SkipInc: true, TimeoutS: 120, IncMs: 500, Inductive: true,
 				Bounds: fmt.Sprintf(bd, "symbolic in [1,2^36] ns/token")})
 			add(&Job{Name: "O1O4-set2", Pkg: "ratelimit", Harness: "VerifC13Set", Params: p("tpt", 0), SkipInc: true, TimeoutS: 120, IncMs: 500, MapPermMax: 2, Inductive: true,
@@ -75,7 +77,7 @@ func jobsFor(prop, tier string) []*Job {
 			N, k int
 			res  int64
 		}
-		cfgs := []cfg{{2, 3, 2e9}, {3, 3, 1e9}, {3, 3, 2e9}, {4, 3, 2e9}}
+		cfgs := []cfg{{2, 3, 2e9}, {3, 3, 1e9}, {3, 3, 2e9}, {4, 3, 2e9}, {3, 3, 7e9}}
 		if thorough {
 			cfgs = append(cfgs, cfg{4, 4, 2e9}, cfg{4, 4, 7e9}, cfg{3, 4, 1e9}, cfg{10, 3, 2e9}, cfg{10, 3, 1e9})
 		}
@@ -90,7 +92,7 @@ func jobsFor(prop, tier string) []*Job {
 			Bounds: "ratio counter with 3 buckets of 1s, 2 symbolic increments to A or B with symbolic advances"})
 	case "C05":
 		type cfg struct{ k, depth, parts int }
-		cfgs := []cfg{{2, 2, 4}, {3, 1, 8}}
+		cfgs := []cfg{{2, 2, 4}, {3, 1, 8}, {4, 1, 16}}
 		if thorough {
 			cfgs = []cfg{{3, 2, 16}, {4, 1, 16}}
 		}
@@ -152,6 +154,8 @@ func jobsFor(prop, tier string) []*Job {
 			}
 		}
 	case "C10":
+		add(&Job{Name: "O3-converge/a=2,wmax=4", Pkg: "roundrobin", Harness: "VerifC10Converge", Params: p("a", 2, "wmax", 4), TimeoutS: 120,
+			Bounds: "two servers with configured weights 1..4 (symbolic), 2 adjustments with a symbolic outlier pattern, then 6 adjustments with equal ratings through the real adjustWeights (real gcd/normalisation): weights back in the configured proportions"})
 		ns := []int{2, 3}
 		for _, n := range ns {
 			if n == 3 && !thorough {
